@@ -10,6 +10,12 @@ from autofit.mapper.prior_model.recursion import DynamicRecursionCache
 
 logger = logging.getLogger(__name__)
 
+# Number of accepted modifications of any model in this process. A frozen model can sit above a
+# component that was thawed (directly or through another parent) and then modified; its cached
+# results are therefore only trusted while no model has been modified since they were stored.
+_modification_count = [0]
+_COUNT_KEY = "__modification_count__"
+
 
 def frozen_cache(func):
     """
@@ -38,6 +44,9 @@ def frozen_cache(func):
                 *args,
             ) + tuple(kwargs.items())
 
+            if self._frozen_cache.get(_COUNT_KEY) != _modification_count[0]:
+                self._frozen_cache.clear()
+                self._frozen_cache[_COUNT_KEY] = _modification_count[0]
             if key not in self._frozen_cache:
                 self._frozen_cache[key] = func(self, *args, **kwargs)
             return self._frozen_cache[key]
@@ -74,7 +83,9 @@ def assert_not_frozen(func):
             and self._is_frozen
         ):
             raise AssertionError("Frozen models cannot be modified")
-        return func(self, *args, **kwargs)
+        result = func(self, *args, **kwargs)
+        _modification_count[0] += 1
+        return result
 
     return wrapper
 
